@@ -22,6 +22,7 @@ from contextlib import contextmanager
 from typing import Annotated, Dict, List, Literal, Optional, Set, Tuple, Union
 import z3
 
+import bearverif  # noqa: F401  (string hints of the scripts are evaluated in this module's globals)
 from . import capture, refsem
 from . import userclasses as uc
 from .core import Generated, Encoding, Discharger
@@ -79,6 +80,15 @@ def checker_used(hint, kind='tester'):
     rec = capture.BY_CODE.get(seen[-1])
     if rec is None:
         raise Unsupported('executed checker was not generated under the spy')
+    # forward-reference proxies resolve lazily and cache their referent: make them do so now, i.e.
+    # inside the copy of beartype that created them (a proxy resolving later, after the other copy
+    # was swapped back in, would mix two copies of beartype -- a harness artefact)
+    for v in rec.scope.values():
+        if isinstance(v, type) and 'forwardref' in type(v).__name__.lower() + v.__name__.lower() + repr(type(v)).lower():
+            try:
+                isinstance(_Dummy(), v)
+            except Exception:
+                pass
     return rec, exc
 
 
@@ -175,11 +185,7 @@ def s_clear_caches(rng):
 def s_failing_forward_ref(rng):
     """A forward reference that fails first (the attribute does not exist yet) must not be
     remembered as failing."""
-    import types
-    mod = sys.modules.get('bearverif.c14_scratch')
-    if mod is None:
-        mod = types.ModuleType('bearverif.c14_scratch')
-        sys.modules['bearverif.c14_scratch'] = mod
+    mod = _scratch()
     if hasattr(mod, 'Late'):
         delattr(mod, 'Late')
 
@@ -193,6 +199,44 @@ def s_failing_forward_ref(rng):
             o['first'] = type(e).__name__
         mod.Late = uc.UA
     return {'target': 'bearverif.c14_scratch.Late', 'needs_late': True}, hist
+
+
+def _scratch():
+    import types
+    import bearverif
+    mod = sys.modules.get('bearverif.c14_scratch')
+    if mod is None:
+        mod = types.ModuleType('bearverif.c14_scratch')
+        sys.modules['bearverif.c14_scratch'] = mod
+    bearverif.c14_scratch = mod          # string hints are eval()ed: the attribute must exist too
+    return mod
+
+
+def s_string_ref_rebound(rng):
+    """A string hint naming a subscripted user generic is queried, the name is rebound to another
+    generic, and the equal string is queried again (possibly nested in a container hint)."""
+    mod = _scratch()
+    mod.Box = uc.UGenList
+    wrap = rng.choice([lambda s: s, lambda s: List[s], lambda s: Optional[s] if False else List[s]])
+    ref = 'bearverif.c14_scratch.Box[int]'
+
+    def hist(o):
+        _q(ref, uc.UGenList([1]), uc.UGenList2([1]), [1])
+        _q(List[ref], [uc.UGenList([1])], [uc.UGenList2([1])])
+        mod.Box = uc.UGenList2
+    return {'target': wrap(ref), 'rebound': True}, hist
+
+
+def s_string_ref_class_rebound(rng):
+    mod = _scratch()
+    mod.Thing = uc.UA
+    ref = 'bearverif.c14_scratch.Thing'
+
+    def hist(o):
+        _q(ref, uc.UA(), uc.UC())
+        _q(Dict[str, ref], {'a': uc.UA()})
+        mod.Thing = uc.UC
+    return {'target': rng.choice([ref, List[ref], Dict[str, ref]])}, hist
 
 
 def s_similar_containers(rng):
@@ -210,12 +254,13 @@ def s_failing_hint_first(rng):
 
 
 SCRIPTS = [s_union_order, s_literal_lookalike, s_literal_lookalike2, s_annotated_meta, s_class_redefined, s_id_reuse,
-           s_clear_caches, s_failing_forward_ref, s_similar_containers, s_failing_hint_first]
+           s_clear_caches, s_failing_forward_ref, s_similar_containers, s_failing_hint_first,
+           s_string_ref_rebound, s_string_ref_class_rebound]
 
 
 def cases(tier, seed):
     out = []
-    reps = 1 if tier == 'quick' else 6
+    reps = 2 if tier == 'quick' else 6
     for sc in SCRIPTS:
         for k in range(reps):
             name = f'{sc.__name__}#{k}'
@@ -239,11 +284,33 @@ def run_case(prop, name, spec, confkw, tier, src):
                 out.findings.append(_finding(name, src, f'first query of an undefined forward reference gave {objs.get("first")}'))
             else:
                 out.discharged += 1
+        try:
+            node = refsem.parse(target) if not _has_str(target) else refsem.Node('any')
+        except Unsupported:
+            node = refsem.Node('any')
         for kind in ('tester', 'raiser'):
             rec_h, exc_h = checker_used(target, kind)
+            first = None
+            if rec_h is not None:
+                ga = Generated()
+                ga.hint, ga.confkw = target, {}
+                setattr(ga, kind, rec_h)
+                first = Encoding(ga, 3, node=node)
+            # the first-time checker is generated *and encoded* inside the fresh copy of beartype:
+            # its forward-reference proxies resolve lazily and must do so against their own copy
+            second = None
             with fresh_beartype():
                 rec_f, exc_f = checker_used(target, kind)
+                if rec_f is not None and first is not None:
+                    gb = Generated()
+                    gb.hint, gb.confkw = target, {}
+                    setattr(gb, kind, rec_f)
+                    second = Encoding(gb, None, node=node, share=first)
             out.obligations += 1
+            if exc_f is not None and 'Violation' not in type(exc_f).__name__:
+                out.inconclusive.append(f'{kind}: a fresh beartype cannot answer the target query at all '
+                                        f'({type(exc_f).__name__}): the script is vacuous')
+                continue
             if (rec_h is None) != (rec_f is None):
                 out.findings.append(_finding(name, src, f'{kind}: after the history {"no" if rec_h is None else "a"} checker runs, '
                                                         f'a fresh beartype runs {"none" if rec_f is None else "one"}'))
@@ -254,16 +321,6 @@ def run_case(prop, name, spec, confkw, tier, src):
             out.discharged += 1
             if rec_h is None:
                 continue
-            ga, gb = Generated(), Generated()
-            for g, r in ((ga, rec_h), (gb, rec_f)):
-                g.hint, g.confkw = target, {}
-                setattr(g, kind, r)
-            try:
-                node = refsem.parse(target) if not isinstance(target, str) else refsem.Node('class', uc.UA)
-            except Unsupported:
-                node = refsem.Node('any')
-            first = Encoding(ga, 3, node=node)
-            second = Encoding(gb, None, node=node, share=first)
             first.assume.extend(second.assume)
             for r in second.results.values():
                 first.results[id(r)] = r
@@ -273,6 +330,13 @@ def run_case(prop, name, spec, confkw, tier, src):
             if node.kind != 'any' and not str(target).startswith('typing.Annotated'):
                 oblige(out, d, first, 'C14', f'{kind}: checker used after the history rejects a conforming object',
                        [first.sem.full(node, first.x), z3.Not(first.guards[kind])], ('c14', kind), src)
+            # a non-violation exception reachable in the checker used after the history (and not
+            # in the first-time checker) is history dependence too
+            fresh_sides = {sc.where for sc in second.side.get(kind, [])}
+            for sc in first.side.get(kind, []):
+                if sc.kind == 'isinstance_raises' and sc.where not in fresh_sides:
+                    oblige(out, d, first, 'C14', f'{kind}: after the history the checker raises at `{sc.where}`; a fresh one does not',
+                           [sc.cond], ('c14', kind), src)
             out.queries += d.stats['queries']
             out.solver_s += d.stats['solver_s']
         out.nontrivial = True
@@ -284,6 +348,13 @@ def run_case(prop, name, spec, confkw, tier, src):
         out.inconclusive.append('harness exception: ' + traceback.format_exc()[-700:])
     out.wall = time.time() - t0
     return out
+
+
+def _has_str(h):
+    import typing
+    if isinstance(h, (str, typing.ForwardRef)):
+        return True
+    return any(_has_str(a) for a in typing.get_args(h) if a is not Ellipsis and not isinstance(a, (int, bytes, bool, list)))
 
 
 def _finding(name, src, label):
